@@ -74,12 +74,15 @@ class Client:
         self.notes = []
         self.done = False
         self.wire_from = set()
+        self.quiet = QUIET
 
     def log(self, **ev):
         self.events.append(ev)
 
-    def recv_some(self, want, quiet=QUIET, stop=None):
+    def recv_some(self, want, quiet=None, stop=None):
         """datagrams until `want` arrived, `stop(parsed)` says so, or `quiet` s of silence"""
+        if quiet is None:
+            quiet = self.quiet
         got = []
         deadline = time.time() + quiet
         while len(got) < want:
@@ -233,7 +236,7 @@ class Download(Client):
                 self.log(e="out", k=p["k"])
 
     def finish(self):
-        extra = self.recv_some(4, quiet=QUIET)
+        extra = self.recv_some(4)
         for p in extra:
             if p["k"] == "data":
                 i = self.slice_index(p["n"], p["payload"])
@@ -345,7 +348,7 @@ class Upload(Client):
             self.finish()
 
     def finish(self):
-        for p in self.recv_some(4, quiet=QUIET):
+        for p in self.recv_some(4):
             self.log(e="out", k=p["k"], n=p.get("n", 0), file=self.file_proj()) if p["k"] == "ack" else self.log(e="out", k=p["k"])
         self.log(e="quiet")
         self.finished_ok = self.acked >= self.nb
